@@ -153,8 +153,9 @@ end
 def hasNameCollision (names : List String) : Bool := names.eraseDups.length != names.length
 
 /-- two different modules contribute the same imported name to one stub (`from utils import B` and
-    `from pkg.utils import B`): the later import shadows the earlier one -/
+    `from pkg.utils import B`; or `from shapes import List` and `from typing import List`): the later import shadows the
+    earlier one -/
 def rootClash (imports : List (String × String)) : Bool :=
-  imports.any (fun a => imports.any (fun b => a.2 == b.2 && a.1 != b.1 && a.1 != "typing" && b.1 != "typing"))
+  imports.any (fun a => imports.any (fun b => a.2 == b.2 && a.1 != b.1))
 
 end MT.Render
